@@ -55,7 +55,8 @@ def _scenario(task):
         fn = {'program': sv.run_program, 'resolve': sc.resolve, 'resolve_none': sc.resolve_after_none, 'dimred': sc.dimension_reduction,
               'history': sc.history, 'verbosity': sc.verbosity, 'no_value': sc.no_value, 'invalid_options': sc.invalid_options,
               'dual_tables': sc.dual_tables, 'partitions': sc.partitions, 'backends': sc.backends, 'mosek_many_rows': sc.mosek_many_rows,
-              'mosek_no_value': sc.mosek_no_value}[kind]
+              'mosek_no_value': sc.mosek_no_value, 'partition_resolve': sc.partition_resolve, 'partition_dropped_handle': sc.partition_dropped_handle,
+              'fresh_process': sc.fresh_process}[kind]
         info, fails = fn(*args)
         return kind, args, info, fails, None
     except Exception as e:
@@ -71,7 +72,7 @@ def run_scenarios(tasks):
         return pool.map(_scenario, tasks, chunksize=1)
 
 
-def solve_scenarios(run, pid, tasks, label, rule, known_clause_signature=None):
+def solve_scenarios(run, pid, tasks, label, rule, known_clause_signature=None, also=()):
     """report the failures of property `pid` found by the bounded solve harness; one VIOLATION per distinct clause"""
     res = run_scenarios(tasks)
     seen = {}
@@ -83,7 +84,7 @@ def solve_scenarios(run, pid, tasks, label, rule, known_clause_signature=None):
             errors += 1
             mine = [(pid, 'scenario.crash', 'the scenario %s%s stopped with %s' % (kind, tuple(args), err.splitlines()[0]))]
         else:
-            mine = [f for f in fails if f[0] == pid]
+            mine = [f for f in fails if f[0] == pid or f[0] in also]
         if len(samples) < 4:
             samples.append({'scenario': kind, 'args': list(args), 'info': {k: str(v)[:80] for k, v in info.items()}})
         if not mine:
